@@ -37,6 +37,7 @@ import (
 
 	"github.com/tsuna/gohbase/hrpc"
 	"github.com/tsuna/gohbase/internal/verifsim"
+	"google.golang.org/protobuf/proto"
 )
 
 // hookBus records every hook point hit (both packages) and can park the k-th hit.
@@ -117,6 +118,40 @@ type c19Env struct {
 	// that is (wrongly) still blocked does not keep the scenario from ending
 	ctx    context.Context
 	cancel context.CancelFunc
+}
+
+// c19gatedGet / c19gatedPut: calls whose serialisation (ToProto, called by the connection that sends them) can be held.
+type c19gatedGet struct {
+	*hrpc.Get
+	gate func()
+	once atomic.Bool
+}
+
+func (g *c19gatedGet) ToProto() proto.Message {
+	if g.once.CompareAndSwap(false, true) {
+		g.gate()
+	}
+	return g.Get.ToProto()
+}
+
+type c19gatedPut struct {
+	*hrpc.Mutate
+	gate func()
+	once atomic.Bool
+}
+
+func (g *c19gatedPut) ToProto() proto.Message {
+	if g.once.CompareAndSwap(false, true) {
+		g.gate()
+	}
+	return g.Mutate.ToProto()
+}
+
+func (g *c19gatedPut) SerializeCellBlocks(cbs [][]byte) (proto.Message, [][]byte, uint32) {
+	if g.once.CompareAndSwap(false, true) {
+		g.gate()
+	}
+	return g.Mutate.SerializeCellBlocks(cbs)
 }
 
 func newC19Env(queue int, opts ...Option) *c19Env {
@@ -492,6 +527,76 @@ func TestVerifC19(t *testing.T) {
 			})
 		}
 	}
+	// ---- A5 (the TLC behaviour of RegionClient.tla "a sender between the done check and registerRPC while fail() runs", through
+	// the top-level client): a request has been admitted by its connection and is being serialised when Close is called;
+	// Close gets as far as closing the socket (held there), the sender registers its call and writes it on the still open
+	// socket, then Close finishes. The call is in flight when Close returns: it returns promptly with the closed error.
+	for _, kind := range []string{"get-unbatched", "put-unbatched", "get-batched"} {
+		var closeHeld, closeGo chan struct{}
+		var holdClose atomic.Bool
+		var target atomic.Pointer[verifsim.Conn] // the connection that carries the requests of the region in question
+		scenario("A5/sender-admitted-while-Close-is-closing-the-socket/"+kind, map[string]int{"get-batched": 3}[kind]+1, func(e *c19Env, bus *hookBus) {
+			closeHeld, closeGo = make(chan struct{}), make(chan struct{}) // (made inside the bubble: waiting on them lets its clock run)
+			// (the server takes its time over that request: whoever completes the call, it is not the response)
+			e.cl.Rules = append(e.cl.Rules, func(_ *verifsim.Cluster, rs *verifsim.RS, sc *verifsim.ServerConn, req *verifsim.Request, rn []byte) *verifsim.Directive {
+				if !verifsim.IsProbe(req) && (string(verifsim.RowOf(req)) == "a2" || req.Method == "Multi") {
+					return &verifsim.Directive{Silent: true}
+				}
+				return nil
+			})
+			e.cl.ConnHook = func(op verifsim.Op) *verifsim.Fault {
+				if op.Kind == verifsim.OpWrite && bytes.Contains(op.Data, []byte("a1")) {
+					target.Store(op.Conn)
+				}
+				if op.Kind == verifsim.OpClose && op.Conn == target.Load() && holdClose.CompareAndSwap(true, false) {
+					close(closeHeld)
+					<-closeGo
+				}
+				return nil
+			}
+		}, func(e *c19Env, bus *hookBus) time.Time {
+			e.get("a1")
+			time.Sleep(time.Second)
+			synctest.Wait()
+			serialising, goOn := make(chan struct{}), make(chan struct{})
+			gate := func() { close(serialising); <-goOn }
+			e.goCall(kind, func() error {
+				var err error
+				switch kind {
+				case "get-unbatched":
+					g, _ := hrpc.NewGet(context.Background(), []byte("t"), []byte("a2"), hrpc.SkipBatch())
+					_, err = e.c.SendRPC(&c19gatedGet{Get: g, gate: gate})
+				case "get-batched":
+					g, _ := hrpc.NewGet(context.Background(), []byte("t"), []byte("a2"))
+					_, err = e.c.SendRPC(&c19gatedGet{Get: g, gate: gate})
+				default:
+					p, _ := hrpc.NewPut(context.Background(), []byte("t"), []byte("a2"), map[string]map[string][]byte{"f": {"q": []byte("v")}}, hrpc.SkipBatch())
+					_, err = e.c.SendRPC(&c19gatedPut{Mutate: p, gate: gate})
+				}
+				return err
+			})
+			select {
+			case <-serialising: // past the connection's closed check, not yet registered
+			case <-time.After(10 * time.Second):
+				rep.bad("harness:c19-a5", "%s: the request never reached the serialisation step", kind)
+				e.c.Close()
+				return time.Now()
+			}
+			holdClose.Store(true)
+			closed := make(chan struct{})
+			go func() { e.c.Close(); close(closed) }()
+			select {
+			case <-closeHeld:
+			case <-closed: // (the connection of a1 was not the first one closed, or nothing was held)
+			}
+			close(goOn) // the sender registers and writes
+			time.Sleep(10 * time.Millisecond)
+			close(closeGo)
+			<-closed
+			return time.Now()
+		})
+	}
+
 	// ---- B: Close at every hook position
 	for _, q := range []int{1, 5} {
 		ref := scenario(fmt.Sprintf("B/reference/q=%d", q), q, nil, func(e *c19Env, bus *hookBus) time.Time {
